@@ -629,23 +629,29 @@ Section Setup.
   Variable Q : Type.
   Variable solve_low : Q -> Z.
 
+  Lemma setup_path_ok_spec : forall e st, setup_path_ok e st = true <-> e = false.
+  Proof. intros e st. unfold setup_path_ok. destruct e; cbn; split; intros H; congruence. Qed.
+
+  Lemma setup_keeps_spec : forall r, setup_keeps r = true <-> r <> S_UNSAT.
+  Proof. intros r. unfold setup_keeps, S_UNSAT. rewrite negb_true_iff, Z.eqb_neq. tauto. Qed.
+
   Theorem setup_select_unique : forall paths p,
     setup_select Q solve_low paths = SetupOk p ->
     In p paths /\ sp_error p = false /\
     forall p', In p' paths -> sp_error p' = false -> p' = p \/ solve_low (sp_query p') = S_UNSAT.
   Proof.
     intros paths p H. unfold setup_select in H.
-    set (ok := filter (fun p => negb (sp_error p)) paths) in *.
+    set (ok := filter (fun p => setup_path_ok (sp_error p) (sp_stuck p)) paths) in *.
     assert (Hok : forall x, In x ok <-> In x paths /\ sp_error x = false).
-    { intros x. unfold ok. rewrite filter_In. rewrite negb_true_iff. tauto. }
+    { intros x. unfold ok. rewrite filter_In. rewrite setup_path_ok_spec. tauto. }
     destruct ok as [|p1 [|p2 rest]] eqn:E.
     - discriminate.
     - inversion H; subst p1. destruct (proj1 (Hok p) (or_introl eq_refl)) as [A B].
       repeat split; auto. intros p' Hin He. left.
       destruct (proj2 (Hok p') (conj Hin He)) as [<-|[]]. reflexivity.
-    - set (f := filter (fun p => negb (solve_low (sp_query p) =? S_UNSAT)) (p1 :: p2 :: rest)) in *.
+    - set (f := filter (fun p => setup_keeps (solve_low (sp_query p))) (p1 :: p2 :: rest)) in *.
       assert (Hf : forall x, In x f <-> In x (p1 :: p2 :: rest) /\ solve_low (sp_query x) <> S_UNSAT).
-      { intros x. unfold f. rewrite filter_In, negb_true_iff, Z.eqb_neq. tauto. }
+      { intros x. unfold f. rewrite filter_In, setup_keeps_spec. tauto. }
       destruct f as [|q1 [|q2 rest']] eqn:F; try discriminate.
       inversion H; subst q1.
       destruct (proj1 (Hf p) (or_introl eq_refl)) as [A B].
@@ -654,7 +660,17 @@ Section Setup.
       destruct (Z.eq_dec (solve_low (sp_query p')) S_UNSAT) as [U|U]; [right; exact U|left].
       destruct (proj2 (Hf p') (conj (proj2 (Hok p') (conj Hin He)) U)) as [<-|[]]. reflexivity.
   Qed.
+
 End Setup.
+
+(* GENUINE DEFECT: the success test of setup() looks at `output.error` only.  A path of setUp stopped by an
+   internal error inside a SUB-CALL has no error at the top level (its output data is None: is_stuck), so it
+   counts as a successful path -- and when it is the only one it becomes the state every test starts from.
+   `setup_select ... = SetupOk p -> sp_stuck p = false` is false of the faithful model: *)
+Theorem setup_select_stuck_path_refuted :
+  exists (paths : list (spath unit)) p,
+    setup_select unit (fun _ => S_SAT) paths = SetupOk p /\ sp_stuck p = true.
+Proof. exists [mkSpath false true tt], (mkSpath false true tt). split; reflexivity. Qed.
 
 (* ------------------------------------------------------------------ which loop-bound logs are reported (C10) *)
 
